@@ -41,7 +41,8 @@ UNSUPPORTED = [
 ]
 BUDGET = 3_000_000
 
-POSITIONS = ["root"] + A.WRAPPERS + ["additionalItems/single-items", "additionalItems/no-items", "definitions", "nested-twice", "properties-of-typed-object"]
+POSITIONS = ["root"] + A.WRAPPERS + ["additionalItems/single-items", "additionalItems/no-items", "definitions", "nested-twice", "properties-of-typed-object",
+             "items/under-type-string", "properties/under-type-array", "object-keywords/under-type-list-without-object", "array-keywords/under-type-integer-list"]
 
 
 def place(position, s):
@@ -56,6 +57,14 @@ def place(position, s):
         return {"type": "object", "title": "Root", "definitions": {"d": s}}
     if position == "nested-twice":
         return {"properties": {"a": {"items": [{"anyOf": [{"not": s}]}]}}}
+    if position == "items/under-type-string":
+        return {"type": "string", "items": s, "contains": s}
+    if position == "properties/under-type-array":
+        return {"type": "array", "properties": {"a": s}, "dependencies": {"k": s}}
+    if position == "object-keywords/under-type-list-without-object":
+        return {"type": ["string", "null"], "additionalProperties": s, "patternProperties": {"^a": s}, "propertyNames": s}
+    if position == "array-keywords/under-type-integer-list":
+        return {"type": ["integer"], "items": [s], "additionalItems": s}
     if position == "properties-of-typed-object":
         return {"type": "object", "title": "Root", "properties": {"p": s}, "patternProperties": {"^q": s}, "additionalProperties": s}
     return A.wrap(position, s)
@@ -225,6 +234,11 @@ def ring_cases(st):
             defs2["d%d" % (length - 1)] = ref_node(kind, [], "D%d" % (length - 1))
             doc2 = {**ref_node("properties", ["#/definitions/d0"], "Root"), "definitions": defs2}
             judge_graph(st, "chain length %d kind %s" % (length, kind), doc2, None, False, rank=length)
+    # cycles that run through a literal keyword (json_ref_dict resolves $ref inside default / const / enum as well)
+    judge_graph(st, "literal cycle: default -> root", {"type": "object", "title": "Root", "properties": {"p": {"type": "object", "title": "P", "default": {"$ref": "#"}}}}, None, True, 1)
+    judge_graph(st, "literal cycle: const <-> enum between definitions", {"type": "object", "title": "Root", "properties": {"a": {"$ref": "#/definitions/a"}}, "definitions": {"a": {"const": {"x": {"$ref": "#/definitions/b"}}}, "b": {"enum": [{"$ref": "#/definitions/a"}, 1]}}}, None, True, 2)
+    judge_graph(st, "literal cycle: default -> definition -> property -> same definition's default", {"type": "object", "title": "Root", "definitions": {"d": {"type": "object", "title": "D", "properties": {"q": {"default": [{"$ref": "#/definitions/d"}]}}}}}, None, True, 2)
+    judge_graph(st, "literal without cycle: default -> other definition", {"type": "object", "title": "Root", "properties": {"p": {"default": {"$ref": "#/definitions/v"}}}, "definitions": {"v": {"const": 1}}}, None, False, 1)
     # self reference of the root, root <-> definition, cross-file rings
     judge_graph(st, "root self-reference", {"type": "object", "title": "Root", "properties": {"me": {"$ref": "#"}}}, None, True, 1)
     judge_graph(st, "root <-> definition", {"type": "object", "title": "Root", "properties": {"d": {"$ref": "#/definitions/d"}}, "definitions": {"d": {"type": "object", "title": "D", "properties": {"back": {"$ref": "#"}}}}}, None, True, 2)
